@@ -135,6 +135,16 @@ def rule_kernel(ck):
                          'can be pushed below it' % (sym.show_atom(a), c))
         else:
             tol_terms += 1
+    tol_args = set()
+    for a in num.all_atoms():
+        if isinstance(a, tuple) and a[0] == 'call' and a[1] == TOL and a[2]:
+            tol_args.add(a[2][0])
+    if not probs and N.nf('p') not in tol_args:
+        probs.append('no tolerance term of the numerator is derived from the point p (tolerances found for: %s): the '
+                     'round-off of the binned value itself is not compensated, so a value equal to an edge can fall '
+                     'into the bin below when the other tolerances vanish (first edge 0)' % ', '.join(sym.show(t) for t in tol_args))
+    if not probs and N.nf('bins[0]') not in tol_args:
+        probs.append('no tolerance term of the numerator is derived from the first edge bins[0]')
     if tol_terms < 2 and not probs:
         probs.append('numerator carries %d tolerance term(s); the point tolerance and the origin tolerance are '
                      'both required (a value equal to an edge must not fall into the bin below)' % tol_terms)
